@@ -68,3 +68,5 @@ Definition py_tolist {A} (l : list A) : list A := l.
 (* `atol if atol else Settings.get_atol()`: None and 0.0 are falsy *)
 Definition eff_atol (F : OF) (default : F) (a : option F) : F :=
   match a with Some x => if (kleb F x (c0 F) && kleb F (c0 F) x)%bool then default else x | None => default end.
+(* a computation without effects (value or exception) used inside the monad *)
+Definition mlift {W A} (r : pyres A) : SM W A := fun w => (r, w).
